@@ -127,6 +127,8 @@ pub fn elementwise_case(op: Op, rank: Rank) -> Case {
                     let er = elems(&r);
                     for i in 0..ea.len().min(er.len()) {
                         ctx.eq(&format!("elem[{}]", i), er[i], s * (eb[i] * ea[i]));
+                        // IEEE single precision, in the documented order: the product of the elements, then times the scalar
+                        ctx.claim(&format!("elem-ieee[{}]", i), Th::Fp, B::Same(er[i], (ea[i] * eb[i]) * s));
                     }
                 }
                 Op::Mean(k) => {
@@ -143,6 +145,19 @@ pub fn elementwise_case(op: Op, rank: Rank) -> Case {
                             sum = o[i] + sum;
                         }
                         ctx.eq(&format!("elem[{}]", i), er[i], sum / lit((k + 1) as f32));
+                    }
+                    // rank-generic in IEEE single precision: every rank rounds like the 1-D operation on the same elements
+                    // (for one other operand that is `(a + o) / 2`, up to the sign of a zero sum)
+                    let flat_others: Vec<Tensor> = eo.iter().map(|o| t1(o)).collect();
+                    let flat_refs: Vec<&Tensor> = flat_others.iter().collect();
+                    let mut fr = t1(&ea);
+                    fr.mean_inplace(&flat_refs);
+                    let efr = elems(&fr);
+                    for i in 0..ea.len().min(er.len()) {
+                        ctx.claim(&format!("elem-as-rank1[{}]", i), Th::Fp, B::Same(er[i], efr[i]));
+                        if k == 1 {
+                            ctx.claim(&format!("elem-ieee[{}]", i), Th::Fp, B::Ident(er[i], (ea[i] + eo[0][i]) / lit(2.0)));
+                        }
                     }
                 }
                 Op::Clamp => {
